@@ -337,11 +337,13 @@ prop(
             (["./plugin/output/http", "./pipeline"], r"^(\(\*Plugin\)\.(sendSplit|out|out\$1)|\(\*(Raw|JSON)Encoder\)\.Encode)$"),
             (["./plugin/output/kafka", "./pipeline"], r"^\(\*Plugin\)\.(out|out\$1)$"),
             (["./plugin/output/gelf"], r"^\(\*Plugin\)\.(formatExtraField|makeTimestampField)$"),
-            (["./plugin/output/splunk"], r"^\(\*Plugin\)\.out\$1$"),
+            (["./plugin/output/splunk"], r"^(\(\*Plugin\)\.(out|out\$1)|parseSplunkError)$"),
+            (["./plugin/output/loki"], r"^\(\*Plugin\)\.(out|out\$1|send|isUnixNanoFormat|parseLabels|getCustomHeaders)$"),
             (["./plugin/output/file"], r"^\(\*Plugin\)\.createNew$")],
     canaries=[("./plugin/output/http", "replay/C19/zz_raw_encoder_test.go", "TestVerifRawEncoderKeepsEarlierEvents"),
               ("./plugin/output/gelf", "replay/C19/zz_gelf_inf_timestamp_test.go", "TestVerifGelfTimestampIsJSONNumber"),
-              ("./plugin/output/elasticsearch", "replay/C19/zz_replay_c19_test.go", "TestVerifReplayC19IndexName")],
+              ("./plugin/output/elasticsearch", "replay/C19/zz_replay_c19_test.go", "TestVerifReplayC19IndexName"),
+              ("./plugin/output/loki", "replay/C19/zz_loki_retry_test.go", "TestVerifLokiRetryAfterFailedSend")],
     claim=(
         "Proved: Batch.ForEach calls the callback for exactly the non-parent events, in index order (per-iteration obligation); Elasticsearch sendSplit and the http output's sendSplit (split_batch), for every pattern of failing / 413 / successful requests (DoTimeout is an arbitrary environment), "
         "sends contiguous ranges data[begin[l]:begin[r]] so that on success the accepted prefix advances exactly from begin[left] to begin[right] - the resent parts tile the batch exactly once - and a single event that is still too large returns the error (recursive calls use the contract); "
@@ -353,10 +355,14 @@ prop(
         "GELF: every byte formatExtraField appends to an extra-field name is an ASCII letter, digit, '_', '-' or '.', for every event key. "
         "GELF makeTimestampField writes a finite number. ES appendIndexName passes every value read from the event through appendEscaped (ghost counters), and appendEscaped appends only bytes >= 0x20, "
         "each appended quote directly behind an appended backslash, the buffer before it unchanged (quantified loop invariant; backslash parity not stated). "
-        "Open findings recorded by input (Loki bad timestamp, GELF retry and duplicate keys) are printed as KNOWN-FINDING."
+        "Splunk out: the worker buffer is restarted, the batch handed in is walked once, one POST whose body is exactly the buffer as the walk left it, nil only if accepted / 400 / nothing to send; parseSplunkError: error mapping of the HEC answer. "
+        "Loki: the callback adds one array element per deliverable event and fills it with a private copy of the event (never sharing nodes with it: guard clause; repaired defect), out walks the batch once and sends once on the root it spawned, "
+        "send appends exactly one value line per message in order (timestamp and text from that message's configured fields, k-th encoding is of message k), one stream under the plugin's labels, one application/json POST of exactly the marshalled bytes, nil iff answered 204; "
+        "isUnixNanoFormat exact; parseLabels / getCustomHeaders: the sequence of map updates. "
+        "Open findings recorded by input (Loki bad timestamp - also as the failing postcondition of out -, GELF retry and duplicate keys) are printed as KNOWN-FINDING."
     ),
     undecided=[
-        "document bodies (event.Encode), file / http / splunk / loki / gelf envelopes: insane-json encoder (third-party), not applicable to contracts on file.d code",
+        "document bodies (event.Encode) and the bytes of the file / http / splunk / loki / gelf envelopes: insane-json and encoding/json encoders (third-party), not applicable to contracts on file.d code (what is stated for splunk / loki is which values go where and how often, not the encoded bytes)",
         "out(): begin has one entry per delivered event (closure called through ForEach across packages) and the Kafka record slicing of the shared buffer - not yet under contract",
         "termination of sendSplit's recursion (decreases right-left) is not checked",
     ],
